@@ -708,3 +708,44 @@ Proof.
   - subst c. destruct (inline_root sch tc root) as [rt|];
       [eapply resolve_under_no_mixin; exact E1 | inversion E1; reflexivity].
 Qed.
+
+(* the fragments resolve returns as bases are WRITTEN names of defined fragments (keys of
+   fragments_definitions), never class names: the dependency relation of the module is on written names *)
+Lemma resolve_mix_written sch frags : forall fuel under ss root unp fields mix unp',
+  resolve fuel sch frags under ss root unp = Some (fields, mix, unp') ->
+  forall fn, In fn mix -> exists fd, find_frag fn frags = Some fd.
+Proof.
+  induction fuel as [|f IH]; intros under ss root unp fields mix unp' H fn Hin; [discriminate|].
+  simpl in H. destruct ss as [|s rest]; [inversion H; subst; destruct Hin|].
+  match type of H with match ?r1 with _ => _ end = _ => destruct r1 as [[[f1 m1] u1]|] eqn:E1; [|discriminate] end.
+  destruct (resolve f sch frags under rest root u1) as [[[f2 m2] u2]|] eqn:E2; [|discriminate].
+  inversion H; subst. apply in_app_or in Hin. destruct Hin as [Hin|Hin]; [|eapply IH; [exact E2 | exact Hin]].
+  destruct s as [al nm mx sub|sn c|tc c sub].
+  - inversion E1; subst. destruct Hin.
+  - destruct (find_frag sn frags) as [fd|] eqn:Ef; [|discriminate].
+    destruct (negb (under || c) && negb (unpack_fragment sch fd (Some root))).
+    + inversion E1; subst. destruct Hin as [<-|[]]. exists fd. exact Ef.
+    + destruct (String.eqb (fr_on fd) root || (is_abstract sch (fr_on fd) && is_sub_type sch (fr_on fd) root)).
+      * eapply IH; [exact E1 | exact Hin].
+      * inversion E1; subst. destruct Hin.
+  - destruct (inline_root sch tc root) as [rt|]; [eapply IH; [exact E1 | exact Hin] | inversion E1; subst; destruct Hin].
+Qed.
+
+Lemma top_graph_written_gen fuel sch frags : forall l g',
+  all_some (map (fun fd => match resolve fuel sch frags false (fr_sel fd) (fr_on fd) [] with
+                           | Some (_, mix, _) => Some (fr_name fd, mix) | None => None end) l) = Some g' ->
+  forall n d, In d (succs g' n) -> exists fd, find_frag d frags = Some fd.
+Proof.
+  induction l as [|h l IHl]; intros g' H n d Hd; simpl in H.
+  - inversion H; subst. destruct Hd.
+  - destruct (resolve fuel sch frags false (fr_sel h) (fr_on h) []) as [[[fs mix] u]|] eqn:E; [|discriminate].
+    destruct (all_some _) as [g0|] eqn:E0; [|discriminate]. inversion H; subst. simpl in Hd.
+    destruct (String.eqb (fr_name h) n).
+    + eapply resolve_mix_written; eassumption.
+    + eapply IHl; [reflexivity | exact Hd].
+Qed.
+
+(* every edge of the base graph ends in the written name of a defined fragment *)
+Lemma top_graph_written fuel sch frags g : top_graph fuel sch frags = Some g ->
+  forall n d, In d (succs g n) -> exists fd, find_frag d frags = Some fd.
+Proof. unfold top_graph. apply top_graph_written_gen. Qed.
